@@ -109,3 +109,18 @@ Theorem outcomes_follow_program_order :
     map (map fst) (outputs (run cfg f conv sched (init ops progs))) = progs.
 Proof. exact finished_outputs. Qed.
 Print Assumptions outcomes_follow_program_order.
+
+(* no protocol loops or blocks: after ANY schedule prefix, letting the threads run to their end
+   terminates with every thread finished ... *)
+Theorem calls_terminate :
+  forall cfg f conv sched ops progs,
+    all_finished (drain cfg f conv (run cfg f conv sched (init ops progs))) = true.
+Proof. exact drain_finishes. Qed.
+Print Assumptions calls_terminate.
+
+(* ... and every call of every thread has then produced exactly one outcome, in program order *)
+Theorem every_call_returns :
+  forall cfg f conv sched ops progs,
+    map (map fst) (outputs (drain cfg f conv (run cfg f conv sched (init ops progs)))) = progs.
+Proof. exact every_call_has_outcome. Qed.
+Print Assumptions every_call_returns.
